@@ -442,6 +442,87 @@ func c18ConcurrentX(bodyIdx []int, hangup bool, b Bounds) *Scenario {
 	}
 }
 
+// c18Push: a bridge whose server may push (BridgeOptions.Server.AllowPush) and whose client answers
+// callbacks (BridgeOptions.Client.OnCallback). The handler of a bridged call asks the client a question
+// with a context that ends before the hook has answered; the hook's answer (a result or an error) then
+// arrives late, while the call that asked is still in flight - and the server's callback ids and the
+// bridge client's request ids are both small integers starting at 1. The HTTP caller must still get the
+// response to its own call and nothing else.
+func c18Push(hookFails bool, b Bounds) *Scenario {
+	return &Scenario{
+		Name:   fmt.Sprintf("push-enabled bridge: the handler's callback times out, the hook answers late (error=%v) while the call is still in flight", hookFails),
+		Params: map[string]any{"hook_fails": hookFails},
+		Bounds: b,
+		New: func() *Instance {
+			var res httpResult
+			body := func() {
+				gates := NewGates()
+				cbctx, expire := cancelCauseCtx()
+				hd := func(ctx context.Context, req *jrpc2.Request) (any, error) {
+					if req.Method() == "echo" {
+						return "echo", nil
+					}
+					_, err := jrpc2.ServerFromContext(ctx).Callback(cbctx, "question", nil)
+					vs.Yield("cb-ret")
+					vs.Note("cb-ret", errStr(err))
+					gates.Wait("finish")
+					return "done", nil
+				}
+				br := jhttp.NewBridge(assignerFunc(func(ctx context.Context, m string) jrpc2.Handler { return hd }), &jhttp.BridgeOptions{
+					Server: &jrpc2.ServerOptions{Concurrency: 2, AllowPush: true},
+					Client: &jrpc2.ClientOptions{OnCallback: func(ctx context.Context, req *jrpc2.Request) (any, error) {
+						gates.Wait("hook")
+						if hookFails {
+							return nil, jrpc2.Errorf(jrpc2.Code(55), "no answer")
+						}
+						return "answer", nil
+					}},
+				})
+				var j Join
+				j.Go("http0", func() {
+					res = doHTTP(br, "POST", "application/json", `{"jsonrpc":"2.0","id":"A","method":"ask"}`)
+					vs.Yield("http-ret")
+					vs.Note("http", fmt.Sprint(res.Status), res.Body)
+				})
+				j.Go("controller", func() {
+					vs.AwaitQuiescence() // the handler waits in Callback, the hook is parked
+					expire()
+					vs.AwaitQuiescence() // Callback has returned with the context's error; the handler is parked
+					gates.Open("hook")
+					vs.AwaitQuiescence() // the late answer has reached the server
+					r2 := doHTTP(br, "POST", "application/json", `{"jsonrpc":"2.0","id":"B","method":"echo"}`)
+					vs.Yield("http-ret")
+					vs.Note("http2", fmt.Sprint(r2.Status), r2.Body)
+					gates.Open("finish")
+				})
+				j.Wait()
+				vs.AwaitQuiescence()
+				br.Close()
+			}
+			check := func(x *vs.Exec) []Viol {
+				v := genericRules(x, nil)
+				if x.Outcome != "ok" {
+					return v
+				}
+				Hit("C18.R1")
+				for _, w := range []struct{ ev, id, want string }{{"http", `"A"`, `"done"`}, {"http2", `"B"`, `"echo"`}} {
+					i := findEv(x, 0, w.ev)
+					if i < 0 {
+						v = append(v, Viol{"C18.R1", "the POST with id " + w.id + " was never answered"})
+						continue
+					}
+					ms, isArr, err := parseRecord([]byte(x.Log[i].Arg(1)))
+					if x.Log[i].Arg(0) != "200" || err != nil || isArr || len(ms) != 1 || ms[0].ID() != w.id || !ms[0].Has("result") || ms[0].Str("result") != w.want {
+						v = append(v, Viol{"C18.R1", fmt.Sprintf("the caller that posted the call with id %s received status %s body %s, want 200 and the result %s of its own call", w.id, x.Log[i].Arg(0), x.Log[i].Arg(1), w.want)})
+					}
+				}
+				return v
+			}
+			return &Instance{Body: body, Check: check}
+		},
+	}
+}
+
 func c18Scenarios(tier string) []*Scenario {
 	if tier == "quick" {
 		return []*Scenario{
@@ -452,6 +533,7 @@ func c18Scenarios(tier string) []*Scenario {
 			c18Concurrent([]int{0, 3}, Bounds{1, 1, 0}),
 			c18ConcurrentX([]int{0, 0}, true, Bounds{1, 1, 0}),
 			c18ConcurrentX([]int{1, 0}, true, Bounds{1, 1, 0}), // the caller that hangs up had a batch with two calls in flight
+			c18Push(true, Bounds{1, 1, 0}), c18Push(false, Bounds{1, 1, 0}),
 		}
 	}
 	out := []*Scenario{c18Bodies(3)}
@@ -463,5 +545,6 @@ func c18Scenarios(tier string) []*Scenario {
 	out = append(out, c18ConcurrentX([]int{0, 0}, true, Bounds{2, 2, 0}), c18ConcurrentX([]int{1, 0}, true, Bounds{2, 1, 0}), c18ConcurrentX([]int{0, 1}, true, Bounds{2, 1, 0}))
 	out = append(out, c18Concurrent([]int{0, 0}, Bounds{2, 2, 0}), c18Concurrent([]int{0, 0, 0}, Bounds{1, 1, 0}), c18Concurrent([]int{0, 1, 2}, Bounds{1, 0, 0}))
 	out = append(out, c18Concurrent([]int{0, 0}, Bounds{1, 1, 1}), c18Concurrent([]int{0, 1}, Bounds{1, 1, 1}), c18Concurrent([]int{0, 0}, Bounds{2, 1, 1}))
+	out = append(out, c18Push(true, Bounds{2, 2, 0}), c18Push(false, Bounds{2, 2, 0}))
 	return out
 }
